@@ -107,6 +107,10 @@ fn programs(n: usize) -> Vec<(&'static str, String, f64)> {
     v.push(("spread_method_call",
             format!("let keep = 7; {} let o = {{ m(...a) {{ return a.length; }} }}; let r = o.m(...xs); keep * 1000000 + r", mk),
             7.0 * 1e6 + nn));
+    // a 32-bit width that is not a size: enum auto-increment continues past i32 / u32
+    v.push(("enum_auto_increment_past_32_bits",
+            format!("let keep = 7; enum E {{ A = 2147483646, B, C, D }} enum F {{ A = 4294967296, B }} enum G {{ A = -10, B }} let r = (E.C === 2147483648 && E.D === 2147483649 && F.B === 4294967297 && G.B === -9 && E[2147483648] === 'C') ? {} : -1; keep * 1000000 + r", n),
+            7.0 * 1e6 + nn));
     // limits are per construct, never cumulative: long sequences of individually small statements
     v.push(("call_sequence",
             format!("let keep = 7; function f(a, b) {{ return a + b; }} let s = 0; {} keep * 1000000 + s",
